@@ -18,6 +18,10 @@ namespace rkcommon {
     template <typename T>
     __forceinline T *alignedMalloc(size_t nElements, size_t align = 64)
     {
+      // nElements * sizeof(T) must not wrap around: a block shorter than
+      // requested would be reported as success
+      if (nElements > static_cast<size_t>(-1) / sizeof(T))
+        return nullptr;
       return (T *)alignedMalloc(nElements * sizeof(T), align);
     }
 
